@@ -392,6 +392,15 @@ class CallMixin:
                 n = self.list_len(st, v.t)
                 ref = self.list_slice_copy(st, v.t, z3.IntVal(0), n, kind=smt.CLS_LIST if cls is list else smt.CLS_TUPLE)
                 return k(st, SV(ref, "list", v.meta if v.meta and v.meta[0] == "elemtype" else None))
+            if v.ty is None and smt.is_ref is not None:
+                # statically unknown argument: copying is modelled for lists / tuples only, so that it IS one on this path
+                # (e.g. under `type(v) is list`) becomes an obligation
+                is_seq = z3.And(smt.is_ref(v.t), z3.Or(smt.CLS[Val.r(v.t)] == smt.CLS_LIST, smt.CLS[Val.r(v.t)] == smt.CLS_TUPLE))
+                self.oblige(st, is_seq, "type", node, f"argument of {cls.__name__}() is a list or a tuple object on this path")
+                st.assume(is_seq)
+                n = self.list_len(st, v.t)
+                ref = self.list_slice_copy(st, v.t, z3.IntVal(0), n, kind=smt.CLS_LIST if cls is list else smt.CLS_TUPLE)
+                return k(st, SV(ref, "list"))
             raise Unsupported("list()/tuple() of unknown iterable")
         if isinstance(cls, type) and issubclass(cls, BaseException) and cls.__name__ not in self.con.opaque:
             self.classes.register(cls)
